@@ -15,6 +15,8 @@ BASES = [
     ("deref", [{"mov": [{"$deref": {"main_reg": "%rax", "constant_offset": "0x8"}}, "rbx"]}, "ret"]),
     ("op_or", [{"mov": [{"$or": ["rax", "rbx"]}, "rcx"]}, "ret"]),
     ("names", ["movl", {"movq": ["raxx"]}, "ret"]),
+    ("ints", [{"mov": [0, "rax"]}, {"add": [8, "rax"]}, "ret"]),
+    ("dup", ["papa", {"mov": ["0xffff", "rax"]}, "ret"]),
     ("zero", [{"$or": [{"xor": ["rax", "rax"]}, {"mov": ["rax", 0]}]}, {"$or": [{"xor": ["rbx", "rbx"]}, {"mov": ["rbx", 0]}]}, "ret"]),
 ]
 
@@ -49,6 +51,16 @@ def _in_list(path, root):
     return len(path) >= 1 and isinstance(_get(root, path[:-1]), list)
 
 
+def _dict_items(node):
+    if isinstance(node, dict):
+        for k, v in node.items():
+            yield k, v
+            yield from _dict_items(v)
+    elif isinstance(node, list):
+        for x in node:
+            yield from _dict_items(x)
+
+
 def factorings(base, rnd, limit):
     """yield (kind, macros, pattern_with_uses) — the inlined rule is `base` by construction"""
     out = []
@@ -72,6 +84,24 @@ def factorings(base, rnd, limit):
             pat = copy.deepcopy(base)
             _set(pat, path, sub[0] + "@s1" + sub[-1:])
             out.append(("substring", [{"name": "@s1", "pattern": sub[1:-1]}], pat))
+    # (c2) the same string macro used TWICE inside one name
+    for path, sub in paths:
+        if path and isinstance(sub, str) and len(sub) >= 4:
+            for ln in (2, 1):
+                found = False
+                for i in range(len(sub) - ln + 1):
+                    part = sub[i:i + ln]
+                    j = sub.find(part, i + ln)
+                    if j >= 0 and "@" not in part:
+                        name = sub[:i] + "@s1" + sub[i + ln:j] + "@s1" + sub[j + ln:]
+                        if name.replace("@s1", part) == sub and name != "@s1":
+                            pat = copy.deepcopy(base)
+                            _set(pat, path, name)
+                            out.append(("substring_twice", [{"name": "@s1", "pattern": part}], pat))
+                            found = True
+                            break
+                if found:
+                    break
     # (d) string macro in key position with a times body
     for path, sub in paths:
         if isinstance(sub, dict) and len(sub) == 1:
@@ -83,8 +113,9 @@ def factorings(base, rnd, limit):
     # (e) parameterised subtree: abstract one string leaf of a dict element
     for path, sub in paths:
         if path and _in_list(path, base) and isinstance(sub, dict):
-            leaves = [(p, s) for p, s in _paths(sub) if p and isinstance(s, str)]
-            for lp, leaf in leaves[:2]:
+            leaves = [(p, s) for p, s in _paths(sub) if p and (isinstance(s, str) or (isinstance(s, int) and not isinstance(s, bool)))]
+            leaves = [x for x in leaves if isinstance(x[1], int)] + [x for x in leaves if isinstance(x[1], str)]
+            for lp, leaf in leaves[:3]:
                 body = copy.deepcopy(sub)
                 # replace every occurrence of the leaf text by the formal parameter
                 for p2, s2 in list(_paths(body)):
@@ -94,7 +125,15 @@ def factorings(base, rnd, limit):
                 _set(pat, path, {"@z1": None, "p-arg1": leaf})
                 out.append(("param", [{"name": "@z1", "args": ["p-arg1"], "pattern": [body]}], pat))
     rnd.shuffle(out)
-    return out[:limit]
+    first, seen = [], set()
+    for o in out:
+        if o[0] not in seen:
+            seen.add(o[0])
+            first.append(o)
+    rest = [o for o in out if o not in first]
+    # prefer parameterised factorings whose argument is a non-string (YAML int) value
+    rest.sort(key=lambda o: 0 if (o[0] == "param" and any(isinstance(v, int) and k != "@z1" for k, v in _dict_items(o[2]))) else 1)
+    return (first + rest)[:max(limit, len(first))]
 
 
 def two_macro_variants(base, rnd):
